@@ -103,7 +103,8 @@ Proof. intros H Hm Hx. unfold where_pinned. rewrite Hm, Hx. apply Z.ltb_ge in H.
 (* the code at HEAD: the repaired complement table is the current one, on the full domain *)
 Lemma grid_head : forallb (fun ez => grid_ok complements ez (domain ez)) [0; 1; 2] = true.
 Proof. vm_compute. reflexivity. Qed.
-Lemma head_where : where_rows = where_pinned.
+(* since the repair (broadcast_row_mask) the model in force uses the row-wise choice; [where_pinned] below is history *)
+Lemma head_where : where_rows = where_fixed.
 Proof. reflexivity. Qed.
 
 (* intervals as items *)
@@ -141,7 +142,8 @@ Proof.
 Qed.
 
 Section Head.
-  (* all statements for the code as it is at /repo HEAD: [complements] (repaired) and npstructures' np.where *)
+  (* HISTORY — the code BEFORE the np.where repair: [complements] (repaired table) with npstructures' conditional-broadcast
+     np.where [where_pinned] (mask handed over as `(..)[:, np.newaxis]`).  Props: C14_stranded_pinned_where{,_fails}. *)
   Variable ez : Z.
   Hypothesis Hez : In ez [0; 1; 2].
 
@@ -203,6 +205,23 @@ Proof.
   intros Href Htx. apply (transcripts_gen complements_fixed where_fixed ref txs grid_fixed Href Htx).
   intros; reflexivity.
 Qed.
+(* ---- the code in force (round 6): [complements] and [where_rows] = row-wise choice; no size guard ---- *)
+Lemma stranded_head_full ez minus ref ivs : In ez [0; 1; 2] ->
+  Forall (fun c => In c (domain ez)) ref -> Forall (iv_valid ref) ivs ->
+  model_stranded complements where_rows minus ez ref ivs = Ok (map (spec_stranded (map (canon ez) ref)) ivs).
+Proof.
+  intros Hez Href Hiv.
+  apply (stranded_all complements domain where_rows grid_head minus ez ref ivs Hez Href (iv_valid_strand ref ivs Hiv)).
+  intros; reflexivity.
+Qed.
+Lemma transcripts_head_full ref txs :
+  Forall (fun c => In c dna10) ref -> Forall (tx_valid ref) txs ->
+  model_transcripts complements where_rows ref txs = Ok (map (spec_transcript (map (canon 2) ref)) txs).
+Proof.
+  intros Href Htx. apply (transcripts_gen complements where_rows ref txs grid_head Href Htx).
+  intros; reflexivity.
+Qed.
+
 Lemma transcripts_head_err ref txs :
   Forall (fun c => In c dna10) ref -> Forall (tx_valid ref) txs -> tx_bases txs <= len txs ->
   model_transcripts complements where_pinned ref txs = Err 5.
@@ -359,13 +378,12 @@ Definition iv_valid_b (ref : list Z) (iv : Z * Z * Z) : bool :=
 (* the size condition is the exact complement of the known npstructures failure class *)
 Definition str_wf (route e : Z) (ref : list Z) (ivs : list (Z * Z * Z)) : bool :=
   let e' := if route =? 0 then e else 2 in
-  mem e' [0; 1; 2] && forallb (fun c => mem c (domain e')) ref && forallb (iv_valid_b ref) ivs
-  && (len ivs <? total_bases ivs).
+  mem e' [0; 1; 2] && forallb (fun c => mem c (domain e')) ref && forallb (iv_valid_b ref) ivs.
 Definition tx_valid_b (ref : list Z) (t : transcript) : bool :=
   forallb (fun p => (0 <=? fst p) && (fst p <=? snd p) && (snd p <=? len ref)) (fst t)
   && ((tx_strand t =? 43) || (tx_strand t =? 45)).
 Definition gen_wf (ref : list Z) (txs : list transcript) : bool :=
-  forallb (fun c => mem c dna10) ref && forallb (tx_valid_b ref) txs && (len txs <? tx_bases txs).
+  forallb (fun c => mem c dna10) ref && forallb (tx_valid_b ref) txs.
 Definition tr_wf (rows : list (list Z)) : bool := forallb (forallb (fun c => (0 <=? c) && (c <? 256))) rows.
 (* multi-step cases: codon rows whose reverse complements are codon rows again (both decided by computation per case) *)
 Definition seq_wf (rows : list (list Z)) : bool :=
@@ -422,14 +440,14 @@ Qed.
 Lemma link_str route e ref ivs o bio : str_wf route e ref ivs = true ->
   model_ok (CStr route e ref ivs o bio) = true -> prop_ok (CStr route e ref ivs o bio) = true.
 Proof.
-  unfold str_wf. intros Hw Hm. cbv zeta in Hw. rewrite !andb_true_iff in Hw. destruct Hw as [[[He Hr] Hi] Hs].
-  apply Z.ltb_lt in Hs. apply forallb_mem_Forall in Hr. apply iv_valid_of_b in Hi. apply mem_In in He.
-  cbn [model_ok prop_ok] in *. rewrite head_where in Hm. cbv zeta.
+  unfold str_wf. intros Hw Hm. cbv zeta in Hw. rewrite !andb_true_iff in Hw. destruct Hw as [[He Hr] Hi].
+  apply forallb_mem_Forall in Hr. apply iv_valid_of_b in Hi. apply mem_In in He.
+  cbn [model_ok prop_ok] in *. cbv zeta.
   destruct (route =? 0).
-  - rewrite (stranded_head_ok e He true ref ivs Hr Hi Hs) in Hm.
+  - rewrite (stranded_head_full e true ref ivs He Hr Hi) in Hm.
     cbn [obs_eqb] in Hm. apply andb_prop in Hm. destruct Hm as [M1 M2]. apply zll_eqb_eq in M2.
     rewrite M1, M2. apply rows_ok_refl.
-  - rewrite (stranded_head_ok 2 He false ref ivs Hr Hi Hs) in Hm.
+  - rewrite (stranded_head_full 2 false ref ivs He Hr Hi) in Hm.
     cbn [obs_eqb] in Hm. apply andb_prop in Hm. destruct Hm as [M1 M2]. apply zll_eqb_eq in M2.
     rewrite M1, M2. apply rows_ok_refl.
 Qed.
@@ -437,10 +455,10 @@ Qed.
 Lemma link_gen ref txs o bio : gen_wf ref txs = true ->
   model_ok (CGen ref txs o bio) = true -> prop_ok (CGen ref txs o bio) = true.
 Proof.
-  unfold gen_wf. intros Hw Hm. rewrite !andb_true_iff in Hw. destruct Hw as [[Hr Ht] Hs].
-  apply Z.ltb_lt in Hs. apply forallb_mem_Forall in Hr. apply tx_valid_of_b in Ht.
-  cbn [model_ok prop_ok] in *. rewrite head_where in Hm.
-  rewrite (transcripts_head_ok ref txs Hr Ht Hs) in Hm. exact Hm.
+  unfold gen_wf. intros Hw Hm. rewrite !andb_true_iff in Hw. destruct Hw as [Hr Ht].
+  apply forallb_mem_Forall in Hr. apply tx_valid_of_b in Ht.
+  cbn [model_ok prop_ok] in *.
+  rewrite (transcripts_head_full ref txs Hr Ht) in Hm. exact Hm.
 Qed.
 
 Lemma link_tr rows outs bio : tr_wf rows = true ->
